@@ -91,14 +91,18 @@ PROPS = {
             "level_text": "Complete grid of {ndarray, Series, DataFrame} x {int64, float64} x index types x column labels x entry points for n in {12,20}, "
                           "compared with the DataFrame/RangeIndex reference run; as_2d_array is additionally under a proved contract.",
             "level_note": "pandas/sktime containers trusted; one recorded known finding (KF5)"},
-    "C12": {"category": "exploration", "driver": "C12", "claimed": True,
-            "technique": "relational consequences of the proved scorer contracts (per-column values are functions of the column; aggregated by row sums) "
-                         "+ bounded metamorphic testing with margin rule at scorer and detector level",
-            "level_text": "Proved: per-column scorer outputs are functions of (column j, cut) only (value posts of C01/C06), detectors consume only the "
-                          "aggregated row sums (AGG in the kernel contracts). The symmetry relations themselves (permutation/shift/scale/reversal) are "
-                          "checked by the bounded driver (n<=8 scorers, n<=30 detectors); no relational lemma is machine-proved yet.",
-            "level_note": "symmetry lemmas not machine-checked: the relations are decided by the bounded tier; the proof obligations listed in evidence are "
-                          "the supporting value posts of the scorers (tagged C12 in specs/zz_tags.py)"},
+    "C12": {"category": "proof", "driver": "C12", "claimed": True, "lemmas": ["L_sym_shift", "L_sym_scale", "L_sym_perm", "L_sym_rev"],
+            "technique": "relational lemmas over the scorer contracts: the contracts prove evaluate == f(SUM, SSQ, RSS of the fitted rows); the lemmas "
+                         "L_sym_shift/scale/perm/rev relate those spec functions for Y = T(X) by induction (z3), with the algebraic consequences for RSS, "
+                         "the squared CUSUM and the Gaussian cost + bounded metamorphic testing with margin rule at scorer and detector level",
+            "level_text": "Scorer level, all n, p, cuts and data: per-column shift leaves SUM-(e-s)c, RSS and hence L2Cost (optimal mean), the cost-based change "
+                          "score, the squared and the non-negative CUSUM unchanged; positive scaling multiplies RSS by k^2 and moves each Gaussian cost by "
+                          "m LOG(k^2), which cancels in the change score (no variance flooring); column permutation permutes the per-column SUM/SSQ (hence "
+                          "every per-column output); time reversal maps SUM/SSQ (hence every cost / change score) of [s,e) to that of the mirrored cut "
+                          "[n-e,n-s). Detector level (PELT / moving window / binary segmentation outputs, permutation invariance of the summed scores, "
+                          "MVCAPA's permuted columns, PELT's optimal cost under reversal, GaussianCovCost, LocalAnomalyScore) is bounded only.",
+            "level_note": "floats as reals (statement: compared only where the margin exceeds rounding error); LOG(xy)=LOG x+LOG y used as the hypothesis "
+                          "M_i == L + L_i of the Gaussian lemma; variance flooring at 1e-16 excluded; detector-level symmetries bounded"},
     "C13": {"category": "proof", "driver": "C13", "claimed": True,
             "technique": "contract-based deductive verification (own AST->VC generator, z3/cvc5) of evaluate/_check_cuts/check_cuts_array/kernels "
                          "+ exhaustive bounded run-time check of the box [-2,n+2]^k",
